@@ -45,11 +45,8 @@ impl AggregateFunction for Max {
     }
 
     fn emit(&self) -> data::Value {
-        if self.max == std::f64::INFINITY {
-            // as before: an infinite maximum is not reported
-            return data::Value::None;
-        }
-        let of_floats = if self.max.is_finite() {
+        // the initial value means that no float was seen; an infinite maximum that was seen is a value
+        let of_floats = if self.max != std::f64::NEG_INFINITY {
             Some(data::Value::from_float(self.max))
         } else {
             None
